@@ -98,6 +98,16 @@ class FaultStdout:
     def flush(self):
         self.rec.do('flush')
 
+    def fileno(self):
+        # code that manipulates the descriptor behind sys.stdout (dup2 of /dev/null over it, isatty …) gets a real,
+        # harmless descriptor of its own
+        if not hasattr(self, '_scratch'):
+            self._scratch = tempfile.TemporaryFile()
+        return self._scratch.fileno()
+
+    def isatty(self):
+        return False
+
 
 def trunc(events):
     out = []
@@ -144,6 +154,8 @@ def run_file(file, fault_step, err, every):
             code = e.code
         except OSError as e:          # a failing os.remove propagates out of main()
             code = 'oserror'
+        except Exception as e:        # anything else escaping main(): the interpreter would print a traceback, status 1
+            code = 'crash:' + type(e).__name__
     finally:
         sys.argv, sys.stdout, os.remove = old_argv, old_out, real_remove
         errtxt = sys.stderr.getvalue()
@@ -243,11 +255,25 @@ def run(tier, seed):
                 ck.fail('input deleted although stdout could not be written (%s)' % redir, {'op': 'clean-os', 'case': name, 'stderr': se[-300:]}, 'os_' + name)
         infile = os.path.join(tmp, 'os_pipe')
         open(infile, 'wb').write(good)
-        p = subprocess.Popen([common.PY, '-W', 'ignore', clirun.PELTOOL, '-f', infile, '--clean'], stdout=subprocess.PIPE, stderr=subprocess.PIPE, env=common.child_env())
-        p.stdout.close()
-        p.wait(timeout=60)
-        ck.case(key=('os', 'pipe'), sample={'real_os': '-f x --clean | (closed pipe)', 'exit': p.returncode, 'input_present': os.path.exists(infile)})
-        ck.count('real-OS closed pipe (informational: small outputs fit the pipe buffer)')
+        # a pipe whose reader is gone before the tool starts: every write fails with EPIPE, nothing is delivered
+        for opt in (False, True):
+            open(infile, 'wb').write(good)
+            rd, wr = os.pipe()
+            os.close(rd)
+            try:
+                p = subprocess.Popen([common.PY] + (['-O'] if opt else []) + ['-W', 'ignore', clirun.PELTOOL, '-f', infile, '--clean'], stdout=wr, stderr=subprocess.PIPE, env=common.child_env())
+            finally:
+                os.close(wr)
+            try:
+                _, se = p.communicate(timeout=60)
+            except subprocess.TimeoutExpired:
+                p.kill()
+                se = b'HANG'
+            ck.case(key=('os', 'pipe', opt), sample={'real_os': '-f x --clean  with stdout = a pipe without reader', 'exit': p.returncode, 'input_present': os.path.exists(infile)})
+            ck.count('real-OS pipe without reader')
+            if not os.path.exists(infile):
+                ck.fail('input deleted although nothing could be written to stdout (pipe without reader, EPIPE)',
+                        {'op': 'clean-os', 'case': 'closed-pipe', 'optimise': opt, 'exit': p.returncode, 'stderr': se.decode(errors='replace')[-300:]}, 'os_pipe')
         ro = os.path.join(tmp, 'in_ro')
         os.makedirs(ro)
         open(os.path.join(ro, 'p1'), 'wb').write(good)
